@@ -215,6 +215,17 @@ package lexer
 //@   ensures result == nil ==> groups[0] != ""
 //@   ensures result != nil ==> lexer.stack == old(lexer.stack)
 
+// New is covered by the bounded stand-in /verif/bounded (include expansion iterates over maps with goto restart).
+//@ func New
+//@   trusted
+
+//@ func NewSimple [C03]
+//@   loop 1 invariant len(fullRules) == len(rules) && -1 <= rangeindex && rangeindex < len(rules)
+//@   loop 1 invariant forall(k, 0, rangeindex+1, fullRules[k] == Rule{rules[k].Name, rules[k].Pattern, nil})
+//@   loop 1 decreases len(rules) - rangeindex
+//@   before call lexer.New#1: assert has(arg0, "Root") && len(arg0["Root"]) == len(rules) && forall(k, 0, len(rules), arg0["Root"][k] == Rule{rules[k].Name, rules[k].Pattern, nil})
+//@   before call lexer.New#1: assert foralls(s, has(arg0, s) ==> s == "Root")
+
 //@ func (*StatefulLexer).getPattern [C07 C03]
 //@   requires l.def != nil && len(l.stack) >= 1 && ruleOK(candidate)
 //@   ensures result1 == nil ==> result0 != nil && uf("re_anchored", "Bool", result0)
